@@ -518,6 +518,8 @@ for _p in ("C04", "C05", "C07", "C08"):
 
 from . import scenarios  # noqa: E402
 
+REGISTRY["C12"]["engines"] = list(REGISTRY["C12"]["engines"]) + [engine_khist.run]
+REGISTRY["C12"]["rule"] += " || K-hist: restricted runs (target / exclude / root) with call arguments inside longer histories: executed sets vs the model, and the map the scheduler is handed (arguments bound also for inputs outside the selection) vs Cache.start_map"
 REGISTRY["C13"]["engines"] = list(REGISTRY["C13"]["engines"]) + [engine_khist.run]
 REGISTRY["C13"]["rule"] += " || K-hist: histories of calls / setup() / executors (target, exclude, root, cache_deps_of, from_cache) with RUN_DEBUG_NODES switched per operation: the executed set of every operation vs the model"
 REGISTRY["C09"]["engines"] = list(REGISTRY["C09"]["engines"]) + [engine_khist.run]
